@@ -10,50 +10,92 @@ import H2V.Lemmas.ConnRecvPBase
 -/
 namespace H2V.Lemmas.ConnRecvP
 open H2V H2V.Model H2V.Model.Conn
+attribute [local irreducible] wrapSubU32 wrapSubUsize
 
 /-- proves `SameR x (f x)` for the stream methods that do not touch the receive side -/
 syntax "samer" : tactic
-macro_rules | `(tactic| samer) => `(tactic| exact ⟨rfl, rfl, rfl, fun h => h⟩)
+macro_rules | `(tactic| samer) => `(tactic| with_reducible exact ⟨rfl, rfl, rfl, fun h => h⟩)
 
 theorem notifySend_same (x : Stream) : SameR x x.notifySend.1 := by
   unfold Stream.notifySend
   cases h1 : x.sendTask <;> cases h2 : x.openTask <;> simp only [h1, h2] <;> exact ⟨rfl, rfl, rfl, fun h => h⟩
-macro_rules | `(tactic| samer) => `(tactic| exact notifySend_same _)
+macro_rules | `(tactic| samer) => `(tactic| with_reducible exact notifySend_same _)
 
 theorem notifyRecv_same (x : Stream) : SameR x x.notifyRecv.1 := by
   unfold Stream.notifyRecv; split <;> samer
-macro_rules | `(tactic| samer) => `(tactic| exact notifyRecv_same _)
+macro_rules | `(tactic| samer) => `(tactic| with_reducible exact notifyRecv_same _)
 
 theorem notifyPush_same (x : Stream) : SameR x x.notifyPush.1 := by
   unfold Stream.notifyPush; split <;> samer
-macro_rules | `(tactic| samer) => `(tactic| exact notifyPush_same _)
+macro_rules | `(tactic| samer) => `(tactic| with_reducible exact notifyPush_same _)
 
 theorem notifyCapacity_same (x : Stream) : SameR x x.notifyCapacity.1 :=
   SameR.trans (y := { x with sendCapacityInc := true }) ⟨rfl, rfl, rfl, fun h => h⟩ (notifySend_same _)
-macro_rules | `(tactic| samer) => `(tactic| exact notifyCapacity_same _)
+macro_rules | `(tactic| samer) => `(tactic| with_reducible exact notifyCapacity_same _)
 
 theorem assignCapacity_same (x : Stream) (a b : Nat) : SameR x (x.assignCapacity a b).1 := by
   unfold Stream.assignCapacity; simp only []; split
   · exact SameR.trans (y := { x with sendFlow := (x.sendFlow.assignCapacity a).1 }) ⟨rfl, rfl, rfl, fun h => h⟩
       (notifyCapacity_same _)
   · samer
-macro_rules | `(tactic| samer) => `(tactic| exact assignCapacity_same _ _ _)
+macro_rules | `(tactic| samer) => `(tactic| with_reducible exact assignCapacity_same _ _ _)
+
+open Lean Elab Command Meta in
+/-- `abstract_const f c as g`: defines `g := fun (x : type of c) => (value of f)[c := x]`, so that
+    `f = g c` holds by unfolding both sides to syntactically identical terms (kernel-checked like any
+    definition).  Needed for `Stream.sendData`: its `if prev < s1.capacity ..` sits under a pair
+    `match`, so any definitional unfolding makes the kernel evaluate the `Decidable` instance, which
+    reaches `wrapSubUsize` = `.. + 2^64 ..` — and `whnf` of `x + literal` is unary. With the instance
+    abstracted the evaluation is stuck at once. -/
+elab "abstract_const " f:ident c:ident " as " g:ident : command => liftTermElabM do
+  let fn ← realizeGlobalConstNoOverloadWithInfo f
+  let cn ← realizeGlobalConstNoOverloadWithInfo c
+  let finfo ← getConstInfo fn
+  let cinfo ← getConstInfo cn
+  let some val := finfo.value? | throwError "no value"
+  unless finfo.levelParams.isEmpty && cinfo.levelParams.isEmpty do throwError "universe polymorphic"
+  let cty := cinfo.type
+  let (gval, gty) ← withLocalDeclD `inst cty fun x => do
+    let v := val.replace fun e => if e.isConstOf cn then some x else none
+    let gval ← mkLambdaFVars #[x] v
+    let gty ← mkForallFVars #[x] finfo.type
+    pure (gval, gty)
+  let gname := (← getCurrNamespace) ++ g.getId
+  let hints := ReducibilityHints.regular (getMaxHeight (← getEnv) gval + 1)
+  addDecl (.defnDecl { name := gname, levelParams := [], type := gty, value := gval, hints := hints, safety := .safe })
+
+abstract_const Stream.sendData Nat.decLt as sendDataG
+
+theorem sendData_eq_G : Stream.sendData = sendDataG Nat.decLt := rfl
+
+theorem sendDataG_same (inst : ∀ p q : Nat, Decidable (p < q)) (x : Stream) (a b : Nat) :
+    SameR x (sendDataG inst x a b).1 := by
+  unfold sendDataG
+  generalize x.sendFlow.sendData a = p
+  obtain ⟨fl, r⟩ := p
+  dsimp only
+  generalize inst _ _ = d
+  cases d with
+  | isTrue h =>
+    simp only [if_pos h]
+    exact SameR.trans (y := { x with sendFlow := fl, bufferedSendData := wrapSubUsize x.bufferedSendData a, requestedSendCapacity := wrapSubU32 x.requestedSendCapacity a })
+      ⟨rfl, rfl, rfl, fun h => h⟩ (notifyCapacity_same _)
+  | isFalse h =>
+    simp only [if_neg h]
+    exact ⟨rfl, rfl, rfl, fun h => h⟩
 
 theorem sendData_same (x : Stream) (a b : Nat) : SameR x (x.sendData a b).1 := by
-  unfold Stream.sendData; simp only []; split
-  · exact SameR.trans (y := { x with sendFlow := (x.sendFlow.sendData a).1, bufferedSendData := wrapSubUsize x.bufferedSendData a, requestedSendCapacity := wrapSubU32 x.requestedSendCapacity a })
-      ⟨rfl, rfl, rfl, fun h => h⟩ (notifyCapacity_same _)
-  · samer
-macro_rules | `(tactic| samer) => `(tactic| exact sendData_same _ _ _)
+  rw [sendData_eq_G]; exact sendDataG_same _ x a b
+macro_rules | `(tactic| samer) => `(tactic| with_reducible exact sendData_same _ _ _)
 
 theorem setQueued_same (x : Stream) (q : QName) (v : Bool) : SameR x (x.setQueued q v) := by
   cases q <;> exact ⟨rfl, rfl, rfl, fun h => h⟩
-macro_rules | `(tactic| samer) => `(tactic| exact setQueued_same _ _ _)
+macro_rules | `(tactic| samer) => `(tactic| with_reducible exact setQueued_same _ _ _)
 
 theorem waitSend_same (x : Stream) (t : String) : SameR x (x.waitSend t) := ⟨rfl, rfl, rfl, fun h => h⟩
-macro_rules | `(tactic| samer) => `(tactic| exact waitSend_same _ _)
+macro_rules | `(tactic| samer) => `(tactic| with_reducible exact waitSend_same _ _)
 theorem waitOpen_same (x : Stream) (t : String) : SameR x (x.waitOpen t) := ⟨rfl, rfl, rfl, fun h => h⟩
-macro_rules | `(tactic| samer) => `(tactic| exact waitOpen_same _ _)
+macro_rules | `(tactic| samer) => `(tactic| with_reducible exact waitOpen_same _ _)
 
 -- the state transitions: a closed state stays closed
 
@@ -67,11 +109,11 @@ theorem recvReset_closed (st : State) (sid : Nat) (r : Reason) (q : Bool) (h : s
 theorem handleError_closed (st : State) (e : PErr) (h : st.isClosed = true) : (st.handleError e).isClosed = true := by
   obtain ⟨inner⟩ := st
   cases inner <;> simp [State.isClosed] at h
-  exact h ▸ rfl
+  rfl
 theorem recvEof_closed (st : State) (h : st.isClosed = true) : st.recvEof.isClosed = true := by
   obtain ⟨inner⟩ := st
   cases inner <;> simp [State.isClosed] at h
-  exact h ▸ rfl
+  rfl
 theorem sendOpen_closed (st : State) (eos : Bool) (h : st.isClosed = true) : (st.sendOpen eos).1.isClosed = true := by
   obtain ⟨inner⟩ := st
   cases inner <;> simp [State.isClosed] at h
@@ -102,7 +144,7 @@ theorem setReset_same (x : Stream) (r : Reason) (i : Initiator) : SameR x (x.set
   simp only []
   refine SameR.trans (y := { x with state := x.state.setReset x.id r i }) ⟨rfl, rfl, rfl, fun _ => rfl⟩ ?_
   exact (notifySend_same _).trans ((notifyPush_same _).trans (notifyRecv_same _))
-macro_rules | `(tactic| samer) => `(tactic| exact setReset_same _ _ _)
+macro_rules | `(tactic| samer) => `(tactic| with_reducible exact setReset_same _ _ _)
 
 /-- a new `state` computed from the entry itself: closedness must be kept -/
 theorem setState_same (x : Stream) (st' : State) (h : x.state.isClosed = true → st'.isClosed = true) :
@@ -163,9 +205,52 @@ macro_rules | `(tactic| ext_step) => `(tactic| with_reducible refine Ext.of_fst_
 macro_rules | `(tactic| ext_step) => `(tactic| with_reducible assumption)
 macro_rules | `(tactic| ext_step) => `(tactic| with_reducible exact Ext.refl _)
 
-macro "ext_auto" : tactic => `(tactic| repeat (first | ext_step | split | dsimp only))
+open Lean Elab Tactic Meta in
+/-- goal `Ext s0 (let x := v; b)` (possibly under `.1`):
+    * `x : Streams` — two goals `Ext s0 v` and `∀ x, Ext s0 x → Ext s0 b`: the intermediate state is
+      forgotten, only the fact that it extends `s0` is kept (no duplication of `v` in `b`);
+    * any other `let` is substituted. -/
+elab "ext_let" : tactic => withMainContext do
+  let g ← getMainGoal
+  let t ← instantiateMVars (← g.getType)
+  unless t.isAppOfArity ``Ext 2 do throwError "ext_let: not an Ext goal"
+  let s0 := t.appFn!.appArg!
+  let e := t.appArg!
+  -- strip projections
+  let rec strip (e : Expr) (fuel : Nat) : Option (Expr × (Expr → Expr)) :=
+    match fuel with
+    | 0 => none
+    | fuel + 1 =>
+      match e with
+      | .letE .. => some (e, id)
+      | .mdata _ b => strip b fuel
+      | .proj n i b => (strip b fuel).map fun (l, k) => (l, fun x => .proj n i (k x))
+      | .app f a =>
+        if (f.isAppOfArity ``Prod.fst 2 || f.isAppOfArity ``Prod.snd 2) then
+          (strip a fuel).map fun (l, k) => (l, fun x => .app f (k x))
+        else none
+      | _ => none
+  match strip e 6 with
+  | some (.letE n ty v b _, k) =>
+    if ty.isConstOf ``Streams then
+      let g1 ← mkFreshExprSyntheticOpaqueMVar (mkApp2 (mkConst ``Ext) s0 v)
+      let ty2 ← withLocalDeclD n ty fun x => do
+        withLocalDeclD `hx (mkApp2 (mkConst ``Ext) s0 x) fun hx => do
+          mkForallFVars #[x, hx] (mkApp2 (mkConst ``Ext) s0 (k (b.instantiate1 x)))
+      let g2 ← mkFreshExprSyntheticOpaqueMVar ty2
+      g.assign (mkApp2 g2 v g1)
+      let (_, g2') ← g2.mvarId!.introNP 2
+      replaceMainGoal [g1.mvarId!, g2']
+    else
+      let g' ← g.replaceTargetDefEq (mkApp2 (mkConst ``Ext) s0 (k (b.instantiate1 v)))
+      replaceMainGoal [g']
+  | _ => throwError "ext_let: no let"
+
+macro "ext_auto" : tactic =>
+  `(tactic| repeat (first | ext_step | ext_let | split | dsimp (config := { zeta := false }) only))
 /-- the same with an induction hypothesis `ih : ∀ …, Ext s (loop n … s …)` -/
 macro "ext_auto_ih" ih:ident : tactic =>
-  `(tactic| repeat (first | ext_step | with_reducible refine Ext.trans ?_ ($ih ..) | split | dsimp only))
+  `(tactic| repeat (first | ext_step | with_reducible refine Ext.trans ?_ ($ih ..) | ext_let | split |
+      dsimp (config := { zeta := false }) only))
 
 end H2V.Lemmas.ConnRecvP
